@@ -533,6 +533,137 @@ func c16Mutations(orig *c14File, both bool) []c16Mut {
 				}
 			}
 		}
+		// ---- multi-record classes around ExpectingMoreEntries ("this account continues in the
+		// next record"): a record with the flag set contributes its resources' hashes but NOT the
+		// account hash; the account hash comes from the final record (flag clear).
+		if len(ch.Balances) > 0 {
+			forge := func(raw msgp.Raw, add uint64) msgp.Raw {
+				var bad trackerdb.BaseAccountData
+				if err := protocol.Decode(raw, &bad); err != nil {
+					return raw
+				}
+				bad.MicroAlgos.Raw += add
+				return protocol.Encode(&bad)
+			}
+			var fake basics.Address
+			for i := range fake {
+				fake[i] = 0xfa
+			}
+			fakeData := protocol.Encode(&trackerdb.BaseAccountData{MicroAlgos: basics.MicroAlgos{Raw: 1_000_000_000_000}, UpdateRound: 1})
+			lastBal := len(ch.Balances) - 1
+			// (a) dangling partial record: an extra record for a NEW address, flag set, never completed
+			add("dangling-partial-record", "extra trailing record {new address, 1e12 uAlgos, ExpectingMoreEntries=true} appended to "+orig.secs[si].name, func(f *c14File) bool {
+				f.secs[si].chunk.Balances = append(f.secs[si].chunk.Balances, encoded.BalanceRecordV6{Address: fake, AccountData: fakeData, ExpectingMoreEntries: true})
+				return true
+			})
+			add("dangling-partial-record", "extra record {new address, 1e12 uAlgos, ExpectingMoreEntries=true} in a new chunk of its own at the end of the file", func(f *c14File) bool {
+				f.secs = append(f.secs, c14Sec{name: "balances.98.msgpack", kind: "chunk", chunk: CatchpointSnapshotChunkV6{Balances: []encoded.BalanceRecordV6{{Address: fake, AccountData: fakeData, ExpectingMoreEntries: true}}}})
+				return true
+			})
+			add("dangling-partial-record/not-last", "extra record {new address, ExpectingMoreEntries=true} inserted BEFORE the last balance record of "+orig.secs[si].name, func(f *c14File) bool {
+				b := f.secs[si].chunk.Balances
+				nb := append(append(append([]encoded.BalanceRecordV6{}, b[:lastBal]...), encoded.BalanceRecordV6{Address: fake, AccountData: fakeData, ExpectingMoreEntries: true}), b[lastBal:]...)
+				f.secs[si].chunk.Balances = nb
+				return true
+			})
+			add("dangling-partial-record/with-resource", "extra trailing record {new address, ExpectingMoreEntries=true} carrying an asset holding", func(f *c14File) bool {
+				var rd trackerdb.ResourcesData
+				rd.SetAssetHolding(basics.AssetHolding{Amount: 77})
+				f.secs[si].chunk.Balances = append(f.secs[si].chunk.Balances, encoded.BalanceRecordV6{Address: fake, AccountData: fakeData, ExpectingMoreEntries: true,
+					Resources: map[uint64]msgp.Raw{4242: protocol.Encode(&rd)}})
+				return true
+			})
+			add("dangling-partial-record/existing-address", "extra trailing record {address of record #0, forged balance, ExpectingMoreEntries=true}", func(f *c14File) bool {
+				b0 := f.secs[si].chunk.Balances[0]
+				f.secs[si].chunk.Balances = append(f.secs[si].chunk.Balances, encoded.BalanceRecordV6{Address: b0.Address, AccountData: forge(b0.AccountData, 1_000_000_000_000), ExpectingMoreEntries: true})
+				return true
+			})
+			add("last-record-expecting-more", "ExpectingMoreEntries set on the LAST balance record of the file", func(f *c14File) bool {
+				f.secs[si].chunk.Balances[lastBal].ExpectingMoreEntries = true
+				return true
+			})
+			for bi := range ch.Balances {
+				bi := bi
+				who := fmt.Sprintf("balance record %s#%d", orig.secs[si].name, bi)
+				// (b) shadowed first record: a forged, flagged record for the same address in front of the genuine one
+				add("shadowed-first-record", who+" preceded by {same address, balance +1e12, ExpectingMoreEntries=true}", func(f *c14File) bool {
+					b := f.secs[si].chunk.Balances
+					forged := encoded.BalanceRecordV6{Address: b[bi].Address, AccountData: forge(b[bi].AccountData, 1_000_000_000_000), ExpectingMoreEntries: true}
+					nb := append(append(append([]encoded.BalanceRecordV6{}, b[:bi]...), forged), b[bi:]...)
+					f.secs[si].chunk.Balances = nb
+					return true
+				})
+				if bi == 0 {
+					add("shadowed-first-record", who+" preceded, in a chunk of its own, by {same address, balance +1e12, ExpectingMoreEntries=true}", func(f *c14File) bool {
+						b := f.secs[si].chunk.Balances
+						forged := encoded.BalanceRecordV6{Address: b[bi].Address, AccountData: forge(b[bi].AccountData, 1_000_000_000_000), ExpectingMoreEntries: true}
+						ns := append(append(append([]c14Sec{}, f.secs[:si]...), c14Sec{name: "balances.97.msgpack", kind: "chunk", chunk: CatchpointSnapshotChunkV6{Balances: []encoded.BalanceRecordV6{forged}}}), f.secs[si:]...)
+						f.secs = ns
+						return true
+					})
+				}
+				add("shadowed-first-record/status", who+" preceded by {same address, Status flipped to Online, ExpectingMoreEntries=true}", func(f *c14File) bool {
+					b := f.secs[si].chunk.Balances
+					var bad trackerdb.BaseAccountData
+					if err := protocol.Decode(b[bi].AccountData, &bad); err != nil {
+						return false
+					}
+					if bad.Status == basics.Online {
+						bad.Status = basics.Offline
+					} else {
+						bad.Status = basics.Online
+					}
+					forged := encoded.BalanceRecordV6{Address: b[bi].Address, AccountData: protocol.Encode(&bad), ExpectingMoreEntries: true}
+					nb := append(append(append([]encoded.BalanceRecordV6{}, b[:bi]...), forged), b[bi:]...)
+					f.secs[si].chunk.Balances = nb
+					return true
+				})
+				// forged record AFTER the genuine one (first insert wins => expected harmless, but it leaves the accessor expecting more)
+				add("forged-second-record", who+" followed by {same address, balance +1e12, ExpectingMoreEntries=false}", func(f *c14File) bool {
+					b := f.secs[si].chunk.Balances
+					forged := encoded.BalanceRecordV6{Address: b[bi].Address, AccountData: forge(b[bi].AccountData, 1_000_000_000_000)}
+					nb := append(append(append([]encoded.BalanceRecordV6{}, b[:bi+1]...), forged), b[bi+1:]...)
+					f.secs[si].chunk.Balances = nb
+					return true
+				})
+				// legitimate split of one account over two records (what the writer does for big accounts)
+				if len(ch.Balances[bi].Resources) >= 1 {
+					split := func(f *c14File, complete bool) {
+						b := f.secs[si].chunk.Balances
+						rec := b[bi]
+						var cs []uint64
+						for c := range rec.Resources {
+							cs = append(cs, c)
+						}
+						sort.Slice(cs, func(i, j int) bool { return cs[i] < cs[j] })
+						first := encoded.BalanceRecordV6{Address: rec.Address, AccountData: rec.AccountData, ExpectingMoreEntries: true, Resources: map[uint64]msgp.Raw{}}
+						second := encoded.BalanceRecordV6{Address: rec.Address, AccountData: rec.AccountData}
+						for i, c := range cs {
+							if i < (len(cs)+1)/2 {
+								first.Resources[c] = rec.Resources[c]
+							} else {
+								if second.Resources == nil {
+									second.Resources = map[uint64]msgp.Raw{}
+								}
+								second.Resources[c] = rec.Resources[c]
+							}
+						}
+						nb := append([]encoded.BalanceRecordV6{}, b[:bi]...)
+						nb = append(nb, first)
+						if complete {
+							nb = append(nb, second)
+						}
+						nb = append(nb, b[bi+1:]...)
+						f.secs[si].chunk.Balances = nb
+					}
+					add("record-split-in-two", who+" split into a partial and a final record", func(f *c14File) bool { split(f, true); return true })
+					add("partial-record-never-completed", who+" replaced by its partial half only (final record missing)", func(f *c14File) bool { split(f, false); return true })
+					if oc := otherChunk(si); oc >= 0 && bi == lastBal {
+						add("partial-record-never-completed/next-chunk", who+" : partial half stays, final half would be in the next chunk but is missing", func(f *c14File) bool { split(f, false); return true })
+					}
+				}
+			}
+		}
 		// KV records
 		for ki := range ch.KVs {
 			ki := ki
@@ -1005,6 +1136,8 @@ func TestVerif_C16(t *testing.T) {
 	kvShiftAccepted := 0
 	benignKinds := map[string]int{}
 	adoptFailed := map[string]int{}
+	adoptedDifferent := map[string]int{}
+	var adoptedExamples []string
 	for _, tg := range targets {
 		tg := tg
 		h := hs[tg.hist]
@@ -1091,8 +1224,13 @@ func TestVerif_C16(t *testing.T) {
 				return
 			}
 			key := "C16:tamper-accepted:" + m.kind
-			if m.kind == "kv-boundary-shift" {
+			switch {
+			case m.kind == "kv-boundary-shift":
 				key = "C16:kv-boundary-shift"
+			case strings.HasPrefix(m.kind, "dangling-partial-record"):
+				key = "C16:dangling-partial-record"
+			case strings.HasPrefix(m.kind, "shadowed-first-record"):
+				key = "C16:shadowed-first-record"
 			}
 			if err := c14Adopt(acc, top, src); err != nil {
 				mu.Lock()
@@ -1107,11 +1245,15 @@ func TestVerif_C16(t *testing.T) {
 				return
 			}
 			if d := c14DiffDumps(tg.dump, dump); len(d) > 0 {
+				mu.Lock()
 				if key == "C16:kv-boundary-shift" {
-					mu.Lock()
 					kvShiftAccepted++
-					mu.Unlock()
 				}
+				adoptedDifferent[m.kind]++
+				if len(adoptedExamples) < 40 {
+					adoptedExamples = append(adoptedExamples, fmt.Sprintf("%s/%d {%s}: adopted state differs in %v", h.Name, tg.round, m.desc, d))
+				}
+				mu.Unlock()
 				r.Report(key, fmt.Sprintf("history %s catchpoint %d: file with mutation {%s} verifies against the producer's label %s and is adopted; the adopted state differs from the producer's in %v", h.Name, tg.round, m.desc, tg.label, d), replay)
 				r.Class("accepted-different-state/" + m.kind)
 				return
@@ -1151,6 +1293,9 @@ func TestVerif_C16(t *testing.T) {
 	r.Set("mutations_not_applicable", notApplicable.Load())
 	r.Set("accepted_same_state_by_kind", benignKinds)
 	r.Set("accepted_but_adoption_failed", adoptFailed)
+	r.Set("accepted_and_adopted_with_different_state_by_kind", adoptedDifferent)
+	sort.Strings(adoptedExamples)
+	r.Set("adopted_different_examples", adoptedExamples)
 	r.Set("kv_boundary_shift_adopted", kvShiftAccepted)
 	r.Set("files_mutated", len(targets))
 	nv := r.Finish(ve.Coverage{Rule: fmt.Sprintf("%d histories: every catchpoint file restored faithfully (state + later labels compared); every single semantic mutation (list in the harness header) of %d files staged through the real accessor, accepted ones adopted and compared", len(hs), len(targets)),
